@@ -30,6 +30,7 @@ RULES = {
     "R11.4": "at most one try_send per subscriber per publish",
     "R11.5": "XPUB recv: handler gets a clone, caller the original; PUB: one spawned reader per peer feeding the handler",
     "R11.6": "subscriptions are per connection: registration replaces an existing entry (C04 R04.4) and starts with an empty list",
+    "R11.F": "foundation clauses re-evaluated as necessary conditions: " + ", ".join(['decoder', 'identity']),
 }
 
 LIST_MUT = {"push", "remove", "retain", "clear", "drain", "truncate", "dedup", "pop", "swap_remove", "insert", "extend", "append", "resize", "retain_mut", "dedup_by", "dedup_by_key", "split_off"}
@@ -267,7 +268,12 @@ def check_send(f, rep, co, label):
     rep.floor("R11.3", "%s: delivery events on paths" % label, nd, 1)
 
 
+DEPENDS = ['decoder', 'identity']     # foundation groups re-evaluated as necessary conditions (rules/found.py)
+
+
 def run(ctx, f, rep):
+    from . import found
+    found.import_groups(ctx, f, rep, 'C11', DEPENDS)
     hs = handlers(f)
     rep.floor("R11.1", "subscription handlers (PUB, XPUB)", len(hs), 2)
     for b in hs:
